@@ -2521,7 +2521,7 @@ ITEMS: List[Item] = [
     Item("SnapInsert", BAN, ["C06"], b_snap_insert),
     Item("InsertPoint", BAN, ["C06", "C04", "C01"], b_insert_point),
     Item("Dedupe", BAN, ["C04", "C01"], b_dedupe),
-    Item("NetworkInit", NETWORK, ["C14", "C08", "C15"], b_network_init),
+    Item("NetworkInit", NETWORK, ["C14", "C08", "C15", "C12"], b_network_init),
     Item("BranchesAndNodes", BAN, ["C01", "C14", "C04", "C03", "C05"], b_branches_and_nodes),
     Item("SimpleSnap", BAN, ["C06", "C01"], b_simple_snap),
     Item("SnapStage", BAN, ["C06", "C01"], b_snap_stage, deps=["SnapInsert"]),
